@@ -4,6 +4,7 @@
 //! script and these bodies in the ABI world: the generated trampolines, abi_entry*, FlexBuffer, AbiConnection.
 #![allow(clippy::too_many_arguments)]
 use crate::world::{fault_point, log, Guard};
+use bytes::BufMut;
 use savefile_derive::{savefile_abi_exportable, Savefile};
 use std::future::Future;
 use std::pin::Pin;
@@ -73,6 +74,8 @@ pub trait Svc {
     fn fut(&self, ev: u32, stages: u32) -> Pin<Box<dyn Future<Output = u32>>>;
     fn fut_bool(&self, ev: u32) -> Pin<Box<dyn Future<Output = bool>>>;
     fn fut_char(&self, ev: u32) -> Pin<Box<dyn Future<Output = char>>>;
+    fn fut_unpin(&self, ev: u32) -> Pin<Box<dyn Future<Output = u16> + Unpin>>;
+    fn fill(&self, buf: &mut dyn BufMut, n: u32, seed: u32);
     fn many(&self, a0: u8, a1: u8, a2: u8, a3: u8, a4: u8, a5: u8, a6: u8, a7: u8, a8: u8, a9: u8, a10: u8, a11: u8, a12: u8, a13: u8, a14: u8, a15: u8, a16: u8, a17: u8, a18: u8, a19: u8, a20: u8, a21: u8, a22: u8, a23: u8, a24: u8, a25: u8, a26: u8, a27: u8, a28: u8, a29: u8, a30: u8, a31: u8, a32: u8, a33: u8, a34: u8, a35: u8, a36: u8, a37: u8, a38: u8, a39: u8, a40: u8, a41: u8, a42: u8, a43: u8, a44: u8, a45: u8, a46: u8, a47: u8, a48: u8, a49: u8, a50: u8, a51: u8, a52: u8, a53: u8, a54: u8, a55: u8, a56: u8, a57: u8, a58: u8, a59: u8, a60: u8, a61: u8, a62: u8, a63: u8) -> u32;
 }
 
@@ -308,6 +311,24 @@ impl Svc for SvcImpl {
             registered: false,
         })
     }
+    fn fut_unpin(&self, ev: u32) -> Pin<Box<dyn Future<Output = u16> + Unpin>> {
+        fault_point("fut_unpin");
+        log(format!("impl.fut_unpin ev={}", ev));
+        Box::pin(MapFut { inner: LeafFut { guard: Guard::new("future"), ev, stage: 0, stages: 1, lazy: false, registered: false }, f: |v: u32| v as u16 })
+    }
+    fn fill(&self, buf: &mut dyn BufMut, n: u32, seed: u32) {
+        fault_point("fill");
+        log(format!("impl.fill n={} seed={}", n, seed));
+        // one large put_slice, a few multi-byte puts and single bytes: whatever chunking the receiving side offers, every
+        // byte must arrive, in order
+        let data: Vec<u8> = (0..n).map(|i| (i.wrapping_mul(31).wrapping_add(seed)) as u8).collect();
+        let (a, b) = data.split_at(data.len() / 3);
+        buf.put_slice(a);
+        buf.put_u64_le(0x0102_0304_0506_0708 ^ seed as u64);
+        buf.put_slice(b);
+        buf.put_u8(seed as u8);
+        buf.put_u32(seed);
+    }
     fn fut_bool(&self, ev: u32) -> Pin<Box<dyn Future<Output = bool>>> {
         fault_point("fut_bool");
         log(format!("impl.fut_bool ev={}", ev));
@@ -422,6 +443,8 @@ pub mod alt {
         fn fut(&self, ev: u32, stages: u32) -> Pin<Box<dyn Future<Output = u32>>>;
         fn fut_char(&self, ev: u32) -> Pin<Box<dyn Future<Output = char>>>;
         fn fut_bool(&self, ev: u32) -> Pin<Box<dyn Future<Output = bool>>>;
+        fn fill(&self, buf: &mut dyn BufMut, n: u32, seed: u32);
+        fn fut_unpin(&self, ev: u32) -> Pin<Box<dyn Future<Output = u16> + Unpin>>;
         fn make_fn(&self, k: u32) -> Box<dyn Fn(u32) -> u32>;
         fn make_leaf(&self, tag: u32) -> Box<dyn Leaf>;
         fn drop_leaves(&mut self) -> u32;
@@ -459,6 +482,12 @@ pub mod alt {
         }
         fn fut_bool(&self, ev: u32) -> Pin<Box<dyn Future<Output = bool>>> {
             <SvcImpl as super::Svc>::fut_bool(self, ev)
+        }
+        fn fut_unpin(&self, ev: u32) -> Pin<Box<dyn Future<Output = u16> + Unpin>> {
+            <SvcImpl as super::Svc>::fut_unpin(self, ev)
+        }
+        fn fill(&self, buf: &mut dyn BufMut, n: u32, seed: u32) {
+            <SvcImpl as super::Svc>::fill(self, buf, n, seed)
         }
         fn fut_char(&self, ev: u32) -> Pin<Box<dyn Future<Output = char>>> {
             <SvcImpl as super::Svc>::fut_char(self, ev)
